@@ -694,6 +694,7 @@ func (c *Ctx) discoverWrites(st *State, fr *Frame, loop *Loop, phis []*ssa.Phi) 
 	acc.MaxID = c.nobj
 	freshStart := TS.fresh
 	nameStart := globalFresh
+	acc.FreshStart, acc.NameStart = freshStart, nameStart
 	for round := 0; round < 4; round++ {
 		probe := st.clone()
 		probe.Disc = newWriteSet()
